@@ -1,5 +1,5 @@
 """C08 specs: Script byte-level structure, written from the consensus GetOp()/push rules."""
-from pyvc.dsl import spec, Int, Bool, Bytes, TupleOf, le_bytes, le_int, forall
+from pyvc.dsl import spec, Int, Bool, Bytes, TupleOf, le_bytes, le_int, forall, exists
 
 OP_PUSHDATA1 = 0x4c
 OP_PUSHDATA2 = 0x4d
@@ -203,3 +203,10 @@ def num_dec(b):
 def minimal_num(b):
     """b is the minimal encoding of its value"""
     return len(b) == 0 or (b[len(b) - 1] % 128 != 0) or (len(b) >= 2 and b[len(b) - 2] >= 0x80)
+
+
+# ---- interpreter-level value conversions --------------------------------------------
+@spec
+def cast_to_bool(b):
+    """Script truth value: some byte non-zero, except for negative zero (sign bit only in the last byte)"""
+    return exists(range(0, len(b)), lambda i: b[i] != 0 and not (i == len(b) - 1 and b[i] == 0x80))
